@@ -33,7 +33,7 @@ def gen_html(rnd, depth=0, budget=None):
         if tag == "ol" and rnd.random() < 0.4:
             attrs = ' start="3"'
         if tag == "span":
-            attrs = rnd.choice([' style="font-weight: bold"', ' style="font-style: italic"', ' style="color: red"', ""])
+            attrs = rnd.choice([' style="font-weight: bold"', ' style="font-style: italic"', ' style="color: red"', "", ' class="fn"', ' class="fn"'])
         if tag in ("hr", "img", "br"):
             out.append(f"<{tag}{attrs}>")
         elif depth >= 4:
@@ -97,6 +97,10 @@ def ws_normal(doc):
     if any(v is not None for v in (doc.attrs or {}).values()):
         return False
     return ok[0]
+
+
+NOTE_FIXED = ['<p><b>see <span class="fn">note</span> here</b></p>', '<p>a <i><b>b<span class="fn">n</span></b> c</i></p>', "<b><pre>code</pre></b>",
+              '<p><span class="fn"><b>x</b></span></p>', '<p><a href="u">l<span class="fn">n<em>m</em></span></a></p>', '<em><p>a<span class="fn">b</span></p></em>']
 
 
 def run(tier, seed, findings):
@@ -180,9 +184,27 @@ def run(tier, seed, findings):
                     rec.violation("roundtrip", f"parse(serialize(doc)) = {back}", dict(call, html=out))
                 else:
                     rec.count("round trips")
+    # a schema whose inline node has content and forbids marks (a footnote), and whose top node admits marks: an
+    # element that opens a new node context while marks are active (`<b>..<span class=fn>..</span>..</b>`, `<b><pre>`)
+    S, O = D.schema("notehtml")
+    for h in NOTE_FIXED + [gen_html(rnd) for _ in range(300 if tier == "quick" else 3000)]:
+        call = dict(fn="from_html", schema="notehtml", html=h)
+        rec.case(("parse", "notehtml", h), nontrivial="<" in h, sample=call)
+        try:
+            with time_limit(3):
+                doc = Node.from_json(S, from_html(S, h))
+        except Timeout:
+            rec.violation("parse-hangs", "no return within 3 s", call)
+            continue
+        except Exception as e:  # noqa: BLE001
+            rec.violation("parse-raises", f"{type(e).__name__}: {e}", call, ["empty-list-normalisation"] if isinstance(e, StopIteration) else [])
+            continue
+        why = O.valid(doc)
+        if why:
+            rec.violation("parse-invalid", why, call)
     context_rules(rec, rnd, tier)
     return rec.result(
-        rule="HTML fragments from a grammar over block / inline / list / table / unknown tags (<= 7 elements, depth <= 4, texts incl. whitespace and characters needing escaping, style attributes, optional attributes) + fixed edge cases: parse terminates (3 s) and is oracle-valid; corpus + generated documents: serialisation succeeds, text survives, and whitespace-normal documents round-trip; context rules vs an oracle matcher; distinct by HTML string / document JSON",
+        rule="HTML fragments from a grammar over block / inline / list / table / unknown tags (<= 7 elements, depth <= 4, texts incl. whitespace and characters needing escaping, style attributes, optional attributes) + fixed edge cases: parse terminates (3 s) and is oracle-valid (bundled schemas, and a schema with a mark-free inline node with content under a top node admitting marks); corpus + generated documents: serialisation succeeds, text survives, and whitespace-normal documents round-trip; context rules vs an oracle matcher; distinct by HTML string / document JSON",
         bounds=dict(tier=tier),
     )
 
